@@ -168,6 +168,7 @@ func (ex *Exec) feasible(c *smt.Term) bool {
 		r, _, _, _ = smt.Portfolio(as, false, ex.P.QuickLimit*2, false)
 	}
 	ex.P.cachePut(key, r)
+	ex.P.noteBranch(r)
 	return r != smt.Unsat
 }
 
